@@ -289,6 +289,13 @@ pub fn exec(func: &str, a: &mut Args) -> String {
         "w_castnl_sc" => { let s1 = sh(a); let m1 = motion_in(a); let c = compound_of(&sh(a)); let m2 = motion_in(a);
             let t0 = a.f(); let t1 = a.f(); let stop = a.b();
             fhit_opt(&details::cast_shapes_nonlinear_shape_composite_shape(&DefaultQueryDispatcher, &m1, &*dynsh(&s1), &m2, &c, t0, t1, stop)) }
+        // triangle|segment cuboid pos12 [margin] pinv canon
+        "w_it_tc" => { let s1 = sh(a); let he = d3::v(a); let m = d3::iso(a);
+            match s1 { Sh::Triangle(p, q, r) => b(details::intersection_test_triangle_cuboid(&m, &Triangle::new(p, q, r), &Cuboid::new(he))).into(), _ => "bad".into() } }
+        "w_it_sgc" => { let s1 = sh(a); let he = d3::v(a); let m = d3::iso(a);
+            match s1 { Sh::Segment(p, q) => b(details::intersection_test_segment_cuboid(&m, &Segment::new(p, q), &Cuboid::new(he))).into(), _ => "bad".into() } }
+        "w_cp_tc" => { let s1 = sh(a); let he = d3::v(a); let m = d3::iso(a); let mg = a.f();
+            match s1 { Sh::Triangle(p, q, r) => nopanic(|| fcp(&details::closest_points_triangle_cuboid(&m, &Triangle::new(p, q, r), &Cuboid::new(he), mg))), _ => "bad".into() } }
         // ---- NonlinearRigidMotion frame helpers
         "nrm_append_translation" => { let m = motion_in(a); let t = d3::v(a); fmotion(&m.append_translation(t)) }
         "nrm_prepend_translation" => { let m = motion_in(a); let t = d3::v(a); fmotion(&m.prepend_translation(t)) }
@@ -443,6 +450,37 @@ pub fn gen_wrap(r: &mut Rng, it: usize, v: &mut Vec<(String, String)>, cov: &mut
         let ch = details::cast_shapes_nonlinear_composite_shape_shape(&DefaultQueryDispatcher, &m2, &c, &m1, &*g1, t0, t1, stop);
         v.push(("w_castnl_sc".into(), format!("{} {} {} {} {} {} {} {}", hsh(&s1), hmotion(&m1), hsh(&comp), hmotion(&m2), hx(t0), hx(t1), b(stop), hhit_opt(&ch))));
         *cov.entry((kind(&s1), "compound".into(), "cast_shapes_nonlinear".into())).or_insert(0) += 1;
+    }
+    // ---- the remaining pairwise mirrored wrappers (triangle / segment first, cuboid second)
+    {
+        let he = d3::gen_he(r, lat).map(|x| x.min(4.0));
+        let tri = gen_shape(r, lat, &[4]); let seg = gen_shape(r, lat, &[5]);
+        for (s1, f) in [(&tri, "w_it_tc"), (&seg, "w_it_sgc"), (&tri, "w_cp_tc")] {
+            // a point of the triangle / segment coincides with a point of the cuboid (overlap), then in 2/3 of the cases
+            // the cuboid is pushed away along a random direction by 0 .. 2 box diagonals (touching, near miss, far)
+            let (_, _, mut pos12) = gen_poses(r, lat, s1, &Sh::Cuboid(he));
+            let (u, w) = if lat { (*r.pick(&[0.0, 0.25, 0.5, 1.0]), *r.pick(&[0.0, 0.5, 1.0])) } else { (r.unit(), r.unit()) };
+            let on1 = match s1 { Sh::Triangle(p, q, t) => p + (q - p) * (u * (1.0 - w * 0.5)) + (t - p) * ((1.0 - u) * (1.0 - w * 0.5)), Sh::Segment(p, q) => p + (q - p) * u, _ => Point::origin() };
+            let in2 = if lat { Vector::new(he.x * *r.pick(&[-1.0, 0.0, 0.5]), he.y * *r.pick(&[-0.5, 0.0, 1.0]), he.z * *r.pick(&[-1.0, 0.0, 1.0])) }
+                      else { Vector::new(he.x * r.uniform(-1.0, 1.0), he.y * r.uniform(-1.0, 1.0), he.z * r.uniform(-1.0, 1.0)) };
+            let push = match r.below(3) { 0 => 0.0, _ => if lat { *r.pick(&[0.25, 0.5, 1.0, 2.0]) } else { r.uniform(0.0, 2.0) } } * he.norm();
+            let dirp = gen_normal(r, lat);
+            pos12.translation.vector = on1.coords - pos12.rotation * in2 + dirp * push;
+            let pinv = pos12.inverse();
+            let cub = Cuboid::new(he);
+            let base = format!("{} {} {}", hsh(s1), d3::hv(&he), d3::hiso(&pos12));
+            match (s1, f) {
+                (Sh::Triangle(p, q, t), "w_it_tc") => { let c = details::intersection_test_cuboid_triangle(&pinv, &cub, &Triangle::new(*p, *q, *t));
+                    v.push((f.into(), format!("{} {} {}", base, d3::hiso(&pinv), b(c)))); }
+                (Sh::Segment(p, q), _) => { let c = details::intersection_test_cuboid_segment(&pinv, &cub, &Segment::new(*p, *q));
+                    v.push((f.into(), format!("{} {} {}", base, d3::hiso(&pinv), b(c)))); }
+                (Sh::Triangle(p, q, t), _) => { let mg = gen_param(r, lat);
+                    let c = std::panic::catch_unwind(std::panic::AssertUnwindSafe(|| details::closest_points_cuboid_triangle(&pinv, &cub, &Triangle::new(*p, *q, *t), mg)));
+                    if let Ok(c) = c { v.push((f.into(), format!("{} {} {} {}", base, hx(mg), d3::hiso(&pinv), hcp(&c)))); } }
+                _ => {}
+            }
+            *cov.entry((kind(s1), "cuboid".into(), (if f == "w_cp_tc" { "closest_points" } else { "intersection_test" }).into())).or_insert(0) += 1;
+        }
     }
     // ---- NonlinearRigidMotion helpers
     {
